@@ -47,8 +47,10 @@ package wire
 //@   ensures  [sticky-error] old(*err) != nil ==> *err != nil
 //@   ensures  *n >= old(*n)
 
+// lengths come from the peer: the limit check is decided with two's-complement int arithmetic (n+length may wrap)
 //@ func ReadByteSlice
 //@   props C18 C08
+//@   wraparound
 //@   requires n != nil && err != nil && old(*n) >= 0
 //@   assigns  *n, *err
 //@   ensures  [never-allocates-beyond-the-limit] lmt != 0 && result != nil ==> len(result) <= lmt
@@ -57,6 +59,7 @@ package wire
 
 //@ func ReadByteSlices
 //@   props C18 C08
+//@   wraparound
 //@   requires n != nil && err != nil && old(*n) >= 0
 //@   assigns  *n, *err
 //@   ensures  [never-allocates-beyond-the-limit] lmt != 0 && result != nil ==> len(result) <= lmt
